@@ -95,6 +95,48 @@ def job(j):
                 r['graph'] = graph_of(mol)
             out.append(r)
         return {'results': out}
+    if op == 'run_rule':
+        try:
+            q = Read(j['text'])
+        except Timeout:
+            raise
+        except RecursionError:
+            return {'read_exc': 'RecursionError'}
+        except Exception as e:
+            return {'read_exc': exc_name(e), 'info': exc_info(e)}
+        out = []
+        for smi in j['smiles']:
+            mol = Chem.MolFromSmiles(smi)
+            if mol is None:
+                out.append({'bad_smiles': True})
+                continue
+            mol = Chem.AddHs(mol)
+            for a in mol.GetAtoms():
+                a.SetAtomMapNum(a.GetIdx() + 1)
+            r = {'graph': graph_of(mol), 'natoms': mol.GetNumAtoms()}
+            try:
+                prods = q.RunReactants(mol)
+                sets = []
+                for ps in prods:
+                    atoms, bonds = {}, []
+                    for frag in ps:
+                        loc = {}
+                        for a in frag.GetAtoms():
+                            o = a.GetAtomMapNum() - 1
+                            loc[a.GetIdx()] = o
+                            atoms[o] = [a.GetAtomicNum(), a.GetFormalCharge(), a.GetNumRadicalElectrons()]
+                        for b in frag.GetBonds():
+                            bonds.append([loc[b.GetBeginAtomIdx()], loc[b.GetEndAtomIdx()], str(b.GetBondType())])
+                    sets.append({'atoms': [atoms.get(i) for i in range(mol.GetNumAtoms())], 'bonds': bonds, 'nfrag': len(ps)})
+                r['products'] = sets
+                r['nmatch'] = len(q.reactantquery[list(q.reactantquery)[0]].GetQueryMatches(mol))
+            except Timeout:
+                raise
+            except Exception as e:
+                r['exc'] = exc_name(e)
+                r['msg'] = str(e)[:120]
+            out.append(r)
+        return {'results': out}
     return {'exc': 'BadJob'}
 
 
